@@ -1,6 +1,7 @@
 package main
 
 import (
+	"go/token"
 	"go/types"
 	"strings"
 
@@ -664,4 +665,64 @@ func (c *Ctx) entryCallsClosedTest(root *ssa.Function, inner string) bool {
 		}
 	}
 	return false
+}
+
+// ---- additional necessary condition (defect reported by a sub-agent while preparing the third round; confirmed with a probe) ----
+
+func init() {
+	reg := registry["C16"]
+	reg.Meta.Rules["C16.7"] = "the reference-count writer stores the current count into the header's RefCount message on both sides of its `count > 1` test (a rollback to 1 must not leave the message at 2)"
+	reg.Rules = append(reg.Rules, func(c *Ctx, r *Result) {
+		fn := c.Fn(r, "hdf5.writeV2RefCount")
+		if fn == nil {
+			return
+		}
+		var gate *ssa.If
+		for _, b := range fn.Blocks {
+			if ifi, ok := b.Instrs[len(b.Instrs)-1].(*ssa.If); ok {
+				if bo, ok := ifi.Cond.(*ssa.BinOp); ok && bo.Op == token.GTR && valueReadsField(bo.X, "core.ObjectHeader.ReferenceCount", 0) {
+					gate = ifi
+				}
+			}
+		}
+		if gate == nil {
+			// no gate: the count is stored unconditionally - fine if a store exists at all
+			ok := false
+			for _, site := range callsIn(fn) {
+				if c.calleeName(site) == "hdf5.ensureRefCountMessage" {
+					ok = true
+				}
+			}
+			r.Check(ok, "C16.7", c.Name(fn)+"#refcount-message-follows-count", c.Pos(fn.Pos()), "the count is written into the RefCount message on every path")
+			r.Floor("C16.7", 1)
+			return
+		}
+		stores := func(arm *ssa.BasicBlock) bool {
+			for _, b := range fn.Blocks {
+				if !edgeDominates(gate.Block(), arm, b) {
+					continue
+				}
+				for _, in := range b.Instrs {
+					call, ok := in.(*ssa.Call)
+					if !ok {
+						continue
+					}
+					n := c.calleeName(call)
+					if n == "hdf5.ensureRefCountMessage" {
+						return true
+					}
+					if strings.HasSuffix(n, "PutUint32") {
+						args := call.Call.Args
+						if valueReadsField(args[len(args)-1], "core.ObjectHeader.ReferenceCount", 0) {
+							return true
+						}
+					}
+				}
+			}
+			return false
+		}
+		up, down := stores(gate.Block().Succs[0]), stores(gate.Block().Succs[1])
+		r.Check(up && down, "C16.7", c.Name(fn)+"#refcount-message-follows-count", c.InstrPos(gate), "count > 1: message created/updated; count <= 1: an existing message is updated too (otherwise the rollback of a failed hard link leaves 2 on disk)")
+		r.Floor("C16.7", 1)
+	})
 }
